@@ -122,6 +122,9 @@ func genSync(rng *rand.Rand, tier string, emit func(string)) {
 				emit(fmt.Sprintf("pos %d", c))
 			}
 		}
+		if rng.Intn(12) == 0 {
+			emit(fmt.Sprintf("snapfail %d %d %d %d", rng.Intn(3), rng.Intn(30), 1+rng.Intn(3), 1+rng.Intn(60)))
+		}
 		if rng.Intn(30) == 0 {
 			emit(fmt.Sprintf("set %d %d %d", rng.Intn(nc), rng.Intn(4), rng.Intn(40)))
 			emit(fmt.Sprintf("ent 0 %d %d normal", rng.Intn(4), rng.Intn(60)))
@@ -251,6 +254,28 @@ func newSync(c *Ctx) func(string) string {
 			}
 			checkIncr()
 			return "data=[" + strings.Join(sm.data, ",") + "]"
+		case "snapfail":
+			// a remote-snapshot apply whose restore FAILS (no transferred backup exists), through the REAL kv state
+			// machine: the synced position must not move (the entry is "ignored" in the model's terms)
+			var t0, i0, t, i uint64
+			fmt.Sscan(f[1], &t0)
+			fmt.Sscan(f[2], &i0)
+			fmt.Sscan(f[3], &t)
+			fmt.Sscan(f[4], &i)
+			rn, err := openNode("mem", "compact")
+			if err != nil {
+				return "err:open"
+			}
+			defer rn.close()
+			if t0 != 0 || i0 != 0 {
+				rn.vn.Node().SetRemoteClusterSyncedRaft("c0", t0, i0, 0)
+			}
+			rn.vn.ApplyEvent([]entryT{node.VerifApplyRemoteSnapEntry("c0", t, i, 1)}, false)
+			nt, ni, _ := rn.vn.Node().GetRemoteClusterSyncedRaft("c0")
+			if nt != t0 || ni != i0 {
+				c.Violation("position-advanced-by-failed-snapshot-apply", fmt.Sprintf("%s: position moved from %d,%d to %d,%d although the restore failed", line, t0, i0, nt, ni))
+			}
+			return fmt.Sprintf("pos=%d,%d", nt, ni)
 		case "pos":
 			return posOf("c" + f[1])
 		case "data":
